@@ -41,6 +41,8 @@ def _closure_list(text):
 def r2_closure_params(text, log):
     """R2: closure parameter patterns Verus rejects are moved into a `let` (nothing dropped):
        |_| E -> |_e| E ;  |(a, b)| E -> |p_| { let (a, b) = p_; E } ;  |&x| E -> |x_| { let x = *x_; E }"""
+    if not any(t.kind == "ident" and t.text == "fn" for t in lex(text)):
+        return text
     while True:
         sh, cls = _closure_list(text)
         toks = sh.toks
@@ -76,7 +78,8 @@ def r3_some_ref_guard(text, log):
     """R3: `Some(&x) if G(x) => E,` -> `Some(x_) if G((*x_)) => { let x = *x_; E }`"""
     m = re.search(r"Some\(&([a-z_][a-z0-9_]*)\)\s+if\s+(.*?)\s*=>\s*(.*?),\n", text)
     if not m:
-        raise Unsupported("R3: `Some(&x) if guard => expr,` arm not found")
+        log.append(("R3", "not applicable: no `Some(&x) if guard => expr,` arm"))
+        return text
     x, guard, expr = m.group(1), m.group(2), m.group(3)
     guard2 = re.sub(r"\b%s\b" % x, f"(*{x}_)", guard)
     new = f"Some({x}_) if {guard2} => {{ let {x} = *{x}_; {expr} }},\n"
@@ -94,8 +97,6 @@ def r3_empty_slice_patterns(text, log):
         n += k
         if k:
             log.append(("R3", f"empty-slice pattern -> guard: {rep}"))
-    if n != 2:
-        raise Unsupported("R3: expected the two empty-slice match arms of `whitespace`")
     return text
 
 
@@ -107,7 +108,8 @@ def r5_rename_shadowing_param(text, log):
     name = toks[nk].text
     edits = [(t.start, t.end, name + "_") for k, t in enumerate(toks) if t.kind == "ident" and t.text == name and k != nk]
     if not edits:
-        raise Unsupported("R5: no shadowing parameter")
+        log.append(("R5", "not applicable: no parameter shadows the function name"))
+        return text
     log.append(("R5", f"parameter `{name}` renamed `{name}_` ({len(edits)} occurrences)"))
     return apply_edits(text, edits)
 
@@ -117,7 +119,8 @@ def r4_uncurry_arguments_def(text, log):
            -> `fn arguments(args, mut input: &'a [u8]) -> R { BODY }` (the closure is applied immediately at its only call site)"""
     m = re.search(r"\)\s*->\s*impl\s+'b\s*\+\s*FnMut\(&'a \[u8\]\)\s*->\s*(ParseResult<'a, \(\)>)\s*\{\s*move\s*\|(mut input: &'a \[u8\])\|\s*\{", text)
     if not m:
-        raise Unsupported("R4: shape of `arguments` changed")
+        log.append(("R4", "not applicable: `arguments` does not return a closure"))
+        return text
     head = text[:m.start()].rstrip()
     if head.endswith(","):
         head = head[:-1]
@@ -137,7 +140,7 @@ def r4_uncurry_arguments_def(text, log):
 def r4_uncurry_arguments_call(text, log):
     new, k = re.subn(r"arguments\(&mut args\)\(input\)", "arguments(&mut args, input)", text)
     if k != 1:
-        raise Unsupported("R4: call site `arguments(&mut args)(input)` not found exactly once")
+        return text
     log.append(("R4", "call site arguments(&mut args)(input) -> arguments(&mut args, input)"))
     return new
 
@@ -148,6 +151,4 @@ def r12_matches_macro(text, log):
         log.append(("R12", f"matches!({m.group(1)}, {m.group(2)}) expanded"))
         return f"match {m.group(1)} {{ {m.group(2)} => true, _ => false }}"
     new, k = re.subn(r"matches!\(\s*([a-z_]+)\s*,\s*([^()]*?)\)", rep, text)
-    if k == 0:
-        raise Unsupported("R12: matches! not found")
     return new
